@@ -88,6 +88,13 @@ func (o *objectGoMapSimple) defineOwnPropertyStr(name unistring.String, descr Pr
 	}
 
 	n := name.String()
+	if descr.Value == nil {
+		// no [[Value]] in the descriptor: an existing property keeps its value, a new one is undefined
+		if o._hasStr(n) {
+			return true
+		}
+		descr.Value = _undefined
+	}
 	if o.extensible || o._hasStr(n) {
 		o.data[n] = descr.Value.Export()
 		return true
